@@ -820,7 +820,48 @@ fn cli_result(a: &Abstract, recs: &[(String, usize, usize)]) -> Value {
   json!({"m": sorted(m), "um": sorted(um)})
 }
 
+/// "A suppression is reported as unused exactly when it silenced nothing" — also in documents no rule
+/// applies to: a file whose language has rules that an `ignores:` glob excludes for its path, the
+/// style and the markup of an HTML page in a project with JavaScript / TypeScript rules only.
+fn unused_where_no_rule_applies(o: &mut Out) {
+  let dir = tempfile::tempdir().expect("tempdir");
+  let w = |rel: &str, text: &str| {
+    let p = dir.path().join(rel);
+    std::fs::create_dir_all(p.parent().unwrap()).unwrap();
+    std::fs::write(p, text).unwrap();
+  };
+  w("sgconfig.yml", "ruleDirs: [rules]\n");
+  w("rules/a.yml", "id: no-foo\nlanguage: TypeScript\nseverity: warning\nignores: ['vendor/**']\nrule: {pattern: foo($A)}\n");
+  w("rules/b.yml", "id: js-foo\nlanguage: JavaScript\nseverity: warning\nrule: {pattern: foo($A)}\n");
+  w("vendor/lib.ts", "foo(3) // ast-grep-ignore: no-foo\n");
+  w("src/used.ts", "foo(1) // ast-grep-ignore: no-foo\n");
+  w("src/unused.ts", "// ast-grep-ignore: no-foo\nbar(2)\n");
+  w("src/page.html", "<script>\n// ast-grep-ignore\nbar(1)\n</script>\n<style>\n/* ast-grep-ignore */\na { color: red }\n</style>\n<!-- ast-grep-ignore -->\n<p>x</p>\n");
+  let out = std::process::Command::new("timeout").arg("60").arg(agv_sg()).arg("scan").arg("--json=stream").current_dir(dir.path()).output();
+  let mut got: Vec<(String, String, u64)> = vec![];
+  let mut status = "spawn".to_string();
+  if let Ok(out) = out {
+    status = format!("{:?}", out.status.code());
+    for line in String::from_utf8_lossy(&out.stdout).lines() {
+      if let Ok(v) = serde_json::from_str::<Value>(line) {
+        got.push((v["file"].as_str().unwrap_or("").trim_start_matches("./").to_string(), v["ruleId"].as_str().unwrap_or("").to_string(), v["range"]["start"]["line"].as_u64().unwrap_or(999)));
+      }
+    }
+  }
+  got.sort();
+  let mut want: Vec<(String, String, u64)> = [("src/page.html", 1), ("src/page.html", 5), ("src/page.html", 8), ("src/unused.ts", 0), ("vendor/lib.ts", 0)]
+    .iter()
+    .map(|(f, l)| (f.to_string(), "unused-suppression".to_string(), *l as u64))
+    .collect();
+  want.sort();
+  if got != want {
+    o.oracle("c14_unused_everywhere", false, json!({"fp": "unused suppressions in documents no rule applies to (ignored path / embedded language without rules)", "status": status, "reported": got, "expected": want}));
+  }
+  o.oracle("c14_unused_everywhere", true, json!({"cases": 1}));
+}
+
 pub fn suppress_cli(ctx: &Ctx, rng: &mut Rng, o: &mut Out) {
+  unused_where_no_rule_applies(o);
   let opname = cli_op_name();
   let ls = langs();
   let all = directives(true);
